@@ -24,6 +24,49 @@ CHECKS = {
         note='Trusted: reference closure semantics (vf/refmodel.py); states merged only when graph and assignment agree.',
         technique='explicit-state BFS over the real transition function, invariants on all states',
         ref='4 (C02), 3.5 E2'),
+    'C03': dict(
+        text='E1: every spec of the scope x both encoders x every raw vector of the declared space: the corrected vector is in '
+             'range, is re-decoded twice and must reproduce vector, activeness and architecture (fixed point); every active '
+             'selection variable names the option that is wired to the originating node in the instance; design-variable nodes '
+             'carry the reported value; two different corrected vectors never denote the same architecture.',
+        note='Trusted: the instance observation (public graph API). Connection variables are covered through fixed point and '
+             'injectivity here, their matrix-level decoding by C10/C11.',
+        technique='explicit enumeration of all inputs in bounds, fixed-point and injectivity oracle on the real decoder',
+        ref='4 (C03)'),
+    'C04': dict(
+        text='E1, complete encoder: the rows of get_all_discrete_x are compared with the reference architecture set of every spec '
+             '(both inclusions), every row is decoded and must be a fixed point with the listed activeness, rows and their '
+             'architectures pairwise distinct, counts / declared size / imputation ratio / statistics consistent; repeated with '
+             'every single variable fixed to every value (subset law).',
+        note='Trusted: reference model A(spec) incl. brute-force connection sets. Completeness is judged on (node set, connection '
+             'edges, discrete dv values), uniqueness on (graph, options taken) - the two readings of "architecture" that cannot '
+             'produce a false alarm.',
+        technique='explicit enumeration of all inputs in bounds, set equality with the reference enumeration',
+        ref='4 (C04)'),
+    'C06': dict(
+        text='E2 (complete derivation state graph, all orders) on every spec with incompatibility pairs + E1 at processor level: '
+             'no state/instance reported feasible holds a confirmed incompatible pair; no admissible architecture loses an option '
+             'in any state it extends (no over-pruning) and each is a feasible leaf; infeasible/refused iff the reference set is empty.',
+        note='Trusted: reference closure semantics. Placement of pairs (start/option/derived/shared) follows from the grammar.',
+        technique='explicit-state BFS over the real transition function + exhaustive decode tables',
+        ref='4 (C06)'),
+    'C07': dict(
+        text='E1 (graph level): every spec x both encoders x every raw vector, with and without materialising the instance, and '
+             'every enumeration row: active => owning choice / design-variable node exists in the decoded instance, inactive => '
+             'canonical value, variables not flagged conditionally active are always active, all paths report the same activeness. '
+             'The assignment-manager level (every registered connection encoder) is part of the C10 exploration.',
+        note='Trusted: owner existence read from the decoded instance graph.',
+        technique='explicit enumeration of all inputs in bounds, cross-path agreement oracle',
+        ref='4 (C07)'),
+    'C14': dict(
+        text='E1 with the fast encoder on every spec of the scope (incl. zero-choice graphs, forced choices, incompatibilities, linked '
+             'choices, connection choices): sound, onto (equal to the reference set and to the complete encoder), valid vectors '
+             'unchanged; E3 slice: the decode table after every ordered pair of preceding decodes equals the fresh table; E4: '
+             'fallback via injected TimeoutError / MemoryError yields a FAST processor with the same table.',
+        note='Trusted: reference model; scripted limiter replaces run_timeout in graph_processor/selector (harness seam).',
+        technique='explicit enumeration of inputs, preceding-decode histories and fallback fault scripts',
+        ref='4 (C14)'),
+
     'C09': dict(
         text='Bounded-exhaustive exploration of connector settings (all type combinations up to 2x2, every existence '
              'pattern, every single exclusion; larger shapes in thorough) on the real matrix generator; oracle is brute-force '
@@ -34,7 +77,7 @@ CHECKS = {
         ref='4 (C09)'),
 }
 
-READY = {'C02', 'C09'}
+READY = {'C01', 'C02', 'C03', 'C04', 'C06', 'C07', 'C09', 'C14'}
 
 NOT_YET = {
 }
